@@ -270,9 +270,11 @@ func findLoops(fn *ssa.Function) []*loopInfo {
 			}
 		}
 	}
-	// order loops by source position of the header's first positioned instruction, falling back to index
+	// order loops by the index of their header block: go/ssa creates blocks in source order (an outer
+	// loop's header before the headers of the loops nested in it), also for range loops whose header
+	// instructions carry no position
 	sort.SliceStable(order, func(i, j int) bool {
-		return loopPos(order[i]) < loopPos(order[j])
+		return order[i].header.Index < order[j].header.Index
 	})
 	for i, li := range order {
 		li.ordinal = i + 1
@@ -580,7 +582,17 @@ func (f *frame) constVal(k *ssa.Const) Val {
 func (f *frame) load(p Val, elem types.Type, st *State) string {
 	g := f.c.g
 	if p.LV != nil && strings.HasPrefix(p.LV.Path, "G:") {
-		return st.Heap(f.globalHeap(p.LV.Path, elem))
+		h := f.globalHeap(p.LV.Path, elem)
+		t := st.Heap(h)
+		if g.constNonNilGlobal(strings.TrimPrefix(p.LV.Path, "G:")) {
+			switch g.TE.SortOf(elem) {
+			case SIface:
+				f.c.assume(st, fmt.Sprintf("(not (= (itag %s) 0))", t))
+			case SRef:
+				f.c.assume(st, fmt.Sprintf("(not (= %s nil))", t))
+			}
+		}
+		return t
 	}
 	if p.LV != nil {
 		return g.LoadLoc(p.LV, st)
